@@ -9,6 +9,7 @@ from ..engine import finite, flow
 from ..engine.mutate import Mutant, Variant, in_function, replace_once
 from ..engine.runner import Rule
 from ..engine.source import AnalysisError, Evaluator, Hole
+from . import C13
 from . import shared
 from .common import callee_name, calls_in, kwarg
 
@@ -311,6 +312,7 @@ def rule_roles_and_ownership(ctx):
 
 
 RULES = [
+    Rule("R-C06-8", "the modification test that protects user content compares the full stat signature before trusting the recorded digest", C13.rule_stat_shortcut, min_instances=4),
     Rule("R-C06-1", "who may delete from the file system", rule_who_may_delete, min_instances=6),
     Rule("R-C06-2", "what may be queued for deletion", rule_what_is_queued, min_instances=40),
     Rule("R-C06-3", "re-hash before unlink", rule_rehash_before_unlink, min_instances=8),
